@@ -357,3 +357,51 @@ func tinyFileFamily() []c12item {
 	}
 	return out
 }
+
+// payloadSizeFamily: Append / AtomicCreate of 0, 1, 4 KiB, 64 KiB−1, 64 KiB,
+// 64 KiB+1, 256 KiB and 1 MiB (the sizes of the C14 payload dimension), as
+// header + body + trailer, with reads of the whole file, of exactly the body,
+// and across both of its borders, through one and through two descriptors;
+// then the same size again behind it (the file grows across the size twice),
+// a link, AtomicCreate of that size over the name, and a read of both.
+func payloadSizeFamily() []c12item {
+	var out []c12item
+	for _, size := range payloadSizes {
+		for _, variant := range []string{"append", "append-reader-open-before", "atomic"} {
+			h := &hb{}
+			h.mk("d")
+			S := uint64(size)
+			switch variant {
+			case "append", "append-reader-open-before":
+				c := h.cr("d", "w")
+				var r0 int
+				if variant == "append-reader-open-before" {
+					r0 = h.open("d", "w")
+				}
+				h.ap(c, 10).ap(c, size).ap(c, 7)
+				if r0 != 0 {
+					h.rd(r0, 0, S+100).rd(r0, 10, S).rd(r0, 7, 6).rd(r0, 10+S-3, 6)
+				}
+				r := h.open("d", "w")
+				h.rd(r, 0, S+100).rd(r, 10, S).rd(r, 9, S+2).rd(r, 10+S-1, 2).rd(r, 10+S, 7).rd(r, 0, 10+S)
+				h.ap(c, size).ap(c, 3)
+				h.rd(r, 17+S, S).rd(r, 17+S-2, S+4).rd(r, 0, 2*S+100)
+				if r0 != 0 {
+					h.rd(r0, 17+S, S+3).cl(r0)
+				}
+				h.cl(c).rd(r, 0, 2*S+100).cl(r)
+				h.ln("d", "w", "d", "l").at("d", "w", size).readBack("d", "l")
+				r2 := h.open("d", "w")
+				h.rd(r2, 0, S+1).rd(r2, S/2, S).cl(r2)
+			case "atomic":
+				h.at("d", "t", size)
+				r := h.open("d", "t")
+				h.rd(r, 0, S+1).rd(r, S/2, S).rd(r, S-1, 2).at("d", "t", size+1).rd(r, 0, S+2).cl(r)
+				r2 := h.open("d", "t")
+				h.rd(r2, 0, S+2).rd(r2, S, 1).cl(r2).ls("d")
+			}
+			out = append(out, c12item{pool: "P", family: "payload-size-" + variant, body: h.ops})
+		}
+	}
+	return out
+}
